@@ -14,3 +14,5 @@ import BertE.Props.C14
 import BertE.Props.C16
 import BertE.Props.C17
 import BertE.Props.C18
+import BertE.Props.C19
+import BertE.Props.C20
